@@ -68,6 +68,8 @@ def run(ctx):
     ctx.rule("E6", "CSR memory window (csr_bus.SRAM): the sub-word written at index i lands in the chunk of the memory word that the "
                    "read-side chooser returns for index i (writer's and reader's order agree); last sub-word triggers the write; "
                    "memory address = bus address above the sub-word bits", min_sites=6)
+    ctx.rule("E7", "a user-fixed CSR location / interrupt number is accepted only inside range(n_locs): the published origin csr_base + "
+                   "paging*n stays inside the window the CSR bridge decodes (same obligations as C13.A3)", min_sites=4)
     ctx.rule("E5", "generated multi-word accessors: read and write use the same address expression per word and the same "
                    "MSW-first order", min_sites=4)
 
@@ -294,6 +296,10 @@ def run(ctx):
 
     # ============================================================ E6
     _e6(ctx)
+
+    # ============================================================ E7
+    from .c13 import loc_bound
+    loc_bound(ctx, "E7")
 
 
 def _seq(node, env, lists):
